@@ -454,6 +454,11 @@ class Report:
         p = VERIF / "evidence" / ("scratch" if str(REPO) != "/repo" else "") / f"{self.prop}.json"
         p.parent.mkdir(parents=True, exist_ok=True)
         p.write_text(json.dumps(ev, indent=1, default=str))
+        if self.tier == "thorough" and str(REPO) == "/repo":
+            # keep the last thorough-tier evidence next to the per-run file (which the next quick run overwrites)
+            tp = VERIF / "evidence" / "thorough" / f"{self.prop}.json"
+            tp.parent.mkdir(parents=True, exist_ok=True)
+            tp.write_text(json.dumps(ev, indent=1, default=str))
         try:
             import jsonschema
 
